@@ -20,7 +20,9 @@ DBGX = 'debug-only cross-check; holds on well-formed input by the cited invarian
 
 RULES = [
     (r'^panic:.*(::new|from_iter|ArrivalCurvePrefix::lookup|Curve::from_trace):assert#', PRECOND),
-    (r'^panic:.*:assert#\d+@(new|lookup|extrapolate_next)$', PRECOND),
+    (r'^panic:(arrival|wcet)::curve::Curve::extrapolate(_steps|_with_bound)?:assert#', PRECOND + ' (assert!(n >= 2) of extrapolate_next, dominated by can_extrapolate() at every call)'),
+    (r'^panic:<arrival::arrival_curve_prefix::ArrivalCurvePrefix as arrival::ArrivalBound>::number_arrivals:assert#', PRECOND + ' (lookup: delta <= horizon holds because the argument is delta % horizon)'),
+    (r'^panic:arrival::arrival_curve_prefix::<impl std::convert::From<&?arrival::arrival_curve_prefix::ArrivalCurvePrefix> for arrival::curve::Curve>::from:assert#', PRECOND),
     (r'^panic:arrival::curve::Curve::lookup_arrivals:panic#\d+$', 'unreachable: callers pass tail < largest_known_distance (tail = delta % largest), so the scan returns at the last entry at the latest'),
     (r'^panic:.*:panic#\d+@lookup_arrivals$', 'unreachable: callers pass tail < largest_known_distance (tail = delta % largest), so the scan returns at the last entry at the latest'),
     (r'^panic:arrival::curve::Curve::from_trace:debug_assert#\d+@distance_to', DBGX + ': the trace is non-decreasing (asserted against the newest element at loop entry; older elements by induction)'),
@@ -39,21 +41,24 @@ RULES = [
     (r'^sub:.*dedicated_uniproc_rta:service_needed\(RBF.*\$0 \+ 1\) - ', SELF),
     (r'^sub:fixed_priority::.*dedicated_uniproc_rta:try\(search\(Dedicated\{\}, p2, closure\)\) - \$0$', BW_INV),
     (r'^sub:fifo::rta::dedicated_uniproc_rta:service_needed\(p0, \$0 \+ 1\) - \$0$', 'total_rbf(x) > x for every 0 < x < L (L is the least fixed point), and A + 1 <= L'),
-    (r'^sub:ros2::(bw|rr)::rta_subchain:cost_of_jobs.*@marginal_execution_cost$', MONOCOST),
+    (r'^sub:ros2::(bw|rr)::rta_subchain:cost_of_jobs\(.*\+ 1\) - cost_of_jobs\(', MONOCOST),
     (r'^sub:<wcet::curve::(Curve|ExtrapolatingCurve) as wcet::JobCostModel>::job_cost_iter', MONOCOST),
     (r'^sub:<wcet::curve::Curve as wcet::JobCostModel>::least_wcet', MONOCOST),
     (r'^sub:<supply::.*(p0\.period - p0\.budget|p0\.deadline - p0\.budget)$', SUPPLY),
     (r'^sub:<supply::constrained::Constrained as supply::SupplyBound>::provided_service:- p0\.budget \+ p0\.deadline', SUPPLY),
     (r'^sub:<supply::.*service_time:.*\(\(p1 / p0\.budget\) \* p0\.budget\)', 'guarded by full_budget < demand (the enclosing branch) together with budget <= period: slack + (demand - full_budget) is a sum of non-negative terms; the linear reasoner does not see through the product'),
     (r'^div:', DIVPOS),
-    (r'^index:.*@min_job_separation$', NONEMPTY),
-    (r'^unwrap:.*@largest_known_distance$', NONEMPTY),
+    (r'^index:.*:p0\.min_distance\[0\]$', NONEMPTY),
+    (r'^unwrap:.*:unwrap\(last\((p0|loopvar)\.min_distance\)\)$', NONEMPTY),
     (r'^sub:arrival::curve::Curve::min_distance:len\(p0\.min_distance\) - 1', NONEMPTY),
-    (r'^(index|sub):.*@extrapolate_next$', HALF),
+    (r'^index:(arrival|wcet)::curve::Curve::extrapolate(_steps|_with_bound)?:(p0|loopvar)\.(min_distance|wcet_of_n_jobs)\[\$0\]$', HALF),
+    (r'^sub:(arrival|wcet)::curve::Curve::extrapolate(_steps|_with_bound)?:(- \$0 \+ )?len\((p0|loopvar)\.(min_distance|wcet_of_n_jobs)\)( - \$0| - 1)$', HALF),
+    (r'^(index|sub):arrival::arrival_curve_prefix::<impl std::convert::From<&?arrival::arrival_curve_prefix::ArrivalCurvePrefix> for arrival::curve::Curve>::from:', HALF + ' (extrapolate_with_bound on the freshly built curve)'),
     (r'^sub:arrival::curve::Curve::extrapolate_with_bound:p1\.0 - 1', 'the bound\'s interval length is >= 1: the only caller passes horizon + epsilon'),
     (r'^sub:<arrival::curve::Curve as arrival::ArrivalBound>::steps_iter:\$0\.1 - \$0\.0', 'the delta-min vector is non-decreasing (FromIterator enforces it; new() documents it), so consecutive differences are non-negative'),
     (r'^index:<<arrival::curve::Curve as arrival::ArrivalBound>::steps_iter::StepsIter', 'idx is kept in 0..step_sizes.len() by the modulo update; step_sizes is non-empty for a delta-min vector with a positive entry'),
     (r'^sub:<arrival::dmin::DeltaMinIterator.*case\(p0\.next_step, Some, 0\) - 1', 'items of steps_iter are interval lengths >= 1 (C11); next_step holds such an item'),
+    (r'^index:<arrival::arrival_curve_prefix::ArrivalCurvePrefix as arrival::ArrivalBound>::number_arrivals:p0\.steps\[', 'i is either an enumerate() index of steps (< len) or steps.len(); the enclosing branch gives i > 0'),
     (r'^index:.*@lookup$', 'i is either an enumerate() index of steps (< len) or steps.len(); the enclosing branch gives i > 0'),
     (r'^sub:time::Offset::closed_from_time_zero:p0 - 1$', 'API precondition delta >= 1 ("closed interval [0,X] of length delta"); the obligation is checked at every crate-internal call site instead (keys ending in @closed_from_time_zero)'),
     (r'^sub:time::Offset::distance_to:p1 - p0$', 'API precondition self <= t (debug_assert); the obligation is checked at every crate-internal call site instead (keys ending in @distance_to)'),
